@@ -124,6 +124,38 @@ def run(tier: str) -> int:
                     if moved != 0.0:
                         rep.violation(f"fixed-atom-moved:{kind}:second-run", f"{kind}: atoms fixed by FixAtoms moved by {moved:.3e} A during a run started after the user shifted the system", dict(ctx, fixed=fixed, round=rnd))
                         break
+    # ---- a Hamiltonian move driven BY HAND (move(context)) after the user shifted the system, with a check_move that refuses
+    # the first trajectories: every refused trajectory goes back to where THIS call started ---------------------------------
+    for it in range(6 if tier == "quick" else 60):
+        n = int(rs.randint(3, 6))
+        for constraint in ("fixcom", "fixatoms"):
+            atoms = cluster(rs, n)
+            fixed = sorted(rs.choice(n, size=int(rs.randint(1, n - 1)), replace=False).tolist())
+            atoms.set_constraint(FixCom() if constraint == "fixcom" else FixAtoms(indices=fixed))
+            mc = HamiltonianCanonical(atoms, temperature=800.0, max_cycles=1, seed=int(rs.randint(1, 10**6)))
+            h = HamiltonianDisplacementMove(operation=Verlet(dt=1.0, max_steps=int(rs.randint(2, 8))))
+            mc.add_move(h)
+            mc.run(2)
+            atoms.positions += rs.uniform(0.3, 1.0, 3)  # the user's edit; no run() (and hence no re-validation) follows
+            com1 = atoms.get_center_of_mass().copy()
+            pos1 = atoms.get_positions().copy()
+            nveto = int(rs.randint(1, 4))
+            h.max_attempts = nveto + (1 if it % 2 else 0)  # the call ends refused (all attempts vetoed) or completed
+            h.check_move = lambda context, c={"k": 0}, nv=nveto: (c.__setitem__("k", c["k"] + 1) or c["k"] > nv)
+            rep.count(("hand-driven-ham", constraint, it))
+            try:
+                h(mc.context)
+            except Exception as ex:  # noqa: BLE001
+                rep.violation(f"raise:hand-driven-ham:{constraint}:{type(ex).__name__}", f"a Hamiltonian move called by hand raised {ex!r}", {"constraint": constraint})
+                continue
+            if constraint == "fixcom":
+                drift = float(np.abs(atoms.get_center_of_mass() - com1).max())
+                if drift > 1e-9:
+                    rep.violation("com-drift:hmc:hand-driven-after-edit", f"a Hamiltonian move called by hand after the user shifted the system ({nveto} refused trajectories): the centre of mass moved by {drift:.3e} A", {"nveto": nveto})
+            else:
+                moved = float(np.abs(atoms.get_positions()[fixed] - pos1[fixed]).max())
+                if moved != 0.0:
+                    rep.violation("fixed-atom-moved:hmc:hand-driven-after-edit", f"a Hamiltonian move called by hand after the user shifted the system ({nveto} refused trajectories): fixed atoms moved by {moved:.3e} A", {"nveto": nveto, "fixed": fixed})
     # ---- FixRot.adjust_momenta: zero angular momentum, unchanged linear momentum ----------------------------
     nrot = 200 if tier == "quick" else 5000
     worst = 0.0
